@@ -598,6 +598,88 @@ func ruleC20_3(c *Ctx) {
 			c.check(used, R, s.fn, "file "+s.format+" lives in the metadata directory", call.Pos(), "Join(outDir, name) is what is dumped / loaded", "the constructed name is not what is written/read under the metadata directory")
 		}
 		if !found {
+			// the name built by an unexported helper that is handed the format, the two name parts and the directory
+			for _, hc := range allCalls(f) {
+				h := hc.Common().StaticCallee()
+				if h == nil || h.Blocks == nil || h.Pkg != f.Pkg || h.Object() == nil || h.Object().Exported() {
+					continue
+				}
+				fj := -1
+				for j, a := range hc.Common().Args {
+					if fs, ok := constString(a); ok && fs == s.format && j < len(h.Params) {
+						fj = j
+					}
+				}
+				if fj < 0 {
+					continue
+				}
+				subst := map[*ssa.Parameter]string{}
+				for j, prm := range h.Params {
+					if j < len(hc.Common().Args) {
+						subst[prm] = org(hc.Common().Args[j])
+					}
+				}
+				for _, spc := range callsIn(h, "fmt.Sprintf") {
+					sp := spc.(*ssa.Call)
+					if resolve(sp.Call.Args[0], sp) != ssa.Value(h.Params[fj]) {
+						continue
+					}
+					found = true
+					// the two parts, seen from the command
+					var parts []string
+					derives(sp.Call.Args[1], func(v ssa.Value) bool {
+						if al, ok := v.(*ssa.Alloc); ok && al.Comment == "varargs" {
+							vals := map[int]string{}
+							for _, r := range *al.Referrers() {
+								if ia, ok := r.(*ssa.IndexAddr); ok {
+									i, _ := constInt(ia.Index)
+									for _, rr := range *ia.Referrers() {
+										if st, ok := rr.(*ssa.Store); ok {
+											vals[int(i)] = orgSubst(st.Val, subst)
+										}
+									}
+								}
+							}
+							parts = []string{vals[0], vals[1]}
+							return true
+						}
+						return false
+					}, false)
+					a0, a1 := "", ""
+					if len(parts) == 2 {
+						a0, a1 = parts[0], parts[1]
+					}
+					okA := a1 == s.a1 && (s.a0 == "" && strings.HasSuffix(a0, ".(in_toto.Link).Name") || a0 == s.a0)
+					c.check(okA, R, s.fn, "file name "+s.format, hc.Pos(), a0+", "+a1, "file name is built from ("+short(a0)+", "+a1+")")
+					// joined with the metadata directory inside the helper, and the helper's result is what is dumped / loaded
+					joined := false
+					for _, jn := range callsIn(h, "path/filepath.Join") {
+						fromName := derives(jn.Common().Args[0], func(v ssa.Value) bool { return v == ssa.Value(sp) }, true)
+						fromDir := derives(jn.Common().Args[0], func(v ssa.Value) bool {
+							prm, ok := v.(*ssa.Parameter)
+							return ok && subst[prm] == c.fv("metadata-directory", "runCmd", "recordCmd")
+						}, true)
+						if fromName && fromDir {
+							joined = true
+						}
+					}
+					used := false
+					for _, k := range allCalls(f) {
+						kn := calleeName(k)
+						if kn != "iface:in_toto.Metadata.Dump" && kn != "in_toto.LoadMetadata" {
+							continue
+						}
+						for _, a := range k.Common().Args {
+							if derives(a, func(v ssa.Value) bool { return v == hc.Value() }, true) {
+								used = true
+							}
+						}
+					}
+					c.check(joined && used, R, s.fn, "file "+s.format+" lives in the metadata directory", hc.Pos(), "Join(outDir, name) is what is dumped / loaded", "the constructed name is not what is written/read under the metadata directory")
+				}
+			}
+		}
+		if !found {
 			c.bad(R, s.fn, "file name "+s.format, f.Pos(), "no file name is built with format "+s.format)
 		}
 	}
